@@ -122,7 +122,6 @@ func singleFrame(b []byte) bool {
 }
 
 func classGet(c *desync.Chunk, err error, want []byte) string {
-	var mi desync.ChunkMissing
 	var in desync.ChunkInvalid
 	switch {
 	case err == nil:
@@ -131,7 +130,7 @@ func classGet(c *desync.Chunk, err error, want []byte) string {
 			return "invalid"
 		}
 		return "ok"
-	case errors.As(err, &mi):
+	case isMissing(err):
 		return "missing"
 	case errors.As(err, &in):
 		return "invalid"
@@ -148,6 +147,13 @@ func listAll(root string) []string {
 		return nil
 	})
 	return out
+}
+
+// isMissing: "missing" is recognised the way desync's own consumers do it (router, cache, failover group, HTTP handler,
+// protocol server): by the error's dynamic type, not through a chain of wrapped errors
+func isMissing(err error) bool {
+	_, ok := err.(desync.ChunkMissing)
+	return ok
 }
 
 func main() {
